@@ -165,7 +165,7 @@ Proof.
   - exact K.
   - destruct (is_idle c s); [|exact K]. destruct (id_lookup (s_ids s) i) as [ser|]; [|exact K].
     destruct (getjob (s_jobs s) ser) as [j|]; [|exact K].
-    destruct (j_done j && negb (done_pending ser (s_hub s))); [destruct (j_drop j && id_is (s_ids s) (j_id j) ser); exact K|].
+    destruct (j_done j); [destruct (j_drop j && id_is (s_ids s) (j_id j) ser); exact K|].
     cbn [fst]. split; sf; [apply K|]. apply kc_put; [apply K|]. cbn. discriminate.
   - exact K.
   - destruct (id_lookup (s_ids s) i); exact K.
